@@ -9,7 +9,7 @@ Values cross the protocol as tagged trees (`cps` = array of code points, so lone
   {"t":"path","v":cps} {"t":"date","v":"iso"} {"t":"time","v":"iso"} {"t":"timetz"} {"t":"set","v":[tree..]}
   {"t":"complex","re":"tok","im":"tok"} {"t":"custom","v":tree} {"t":"unsupported"}
 in : {"op":"dumps","ext":bool,"v":tree}        out: {"t":[cp..],"b":"hex"} | {"err":kind}
-in : {"op":"loads","s":[cp..]}                 out: {"v":jtree} | {"none":true}
+in : {"op":"loads","s":[cp..]}                 out: {"v":jtree (objects as pair lists),"n":jtree (objects as dicts)} | {"none":true}
      jtree: null/bool/int as above, {"t":"num","v":"tok"}, {"t":"str","v":cps}, {"t":"arr","v":[..]}, {"t":"obj","v":[[cps,jtree]..]}
 in : {"op":"file","mode":"binary"|"text","ext":bool,"msgs":[tree..]}
                                                out: {"calls":[["w",[unit..]] | ["f"] ..]}
@@ -84,7 +84,7 @@ def handle (j : Json) : Except String Json := do
   | "loads" =>
     let s ← getCps (← j.getObjVal? "s")
     match decode s with
-    | some v => pure (Json.mkObj [("v", ofJ v)])
+    | some v => pure (Json.mkObj [("v", ofJ v), ("n", ofJ v.norm)])
     | none => pure (Json.mkObj [("none", true)])
   | "file" =>
     let ext ← j.getObjValAs? Bool "ext"
